@@ -73,3 +73,23 @@ def violates(run, case, impl, model):
     if rc.cls(a) == "N" and rc.cls(b) == "N":
         return True          # remaining budget differs
     return rc.cls(a) == "tree"
+
+# ---- consumer pogs.Extract composed with the reader model (coq/Pogs/PogsRead.v, PogsReadFuel.v); appended, supersedes
+# ---- the words "pogs.Extract" in the NOT-proved sentences above (text.Marshal is handled in its own appended block)
+COQ_TARGETS = COQ_TARGETS + ["Props/Properties_C02_pogs.vo"]
+PROPS_FILES = PROPS_FILES + ["Props/Properties_C02_pogs.v"]
+LEVEL_TEXT = LEVEL_TEXT + (
+    " UPDATE pogs.Extract: recursion depth now proved (C02_pogs_extract_fuel_sufficient, C02_pogs_extract_r_fuel): for ALL "
+    "segment bytes (cyclic messages included), all T, D and every mapped schema with rschema_ok G, the Go-faithful model "
+    "extract_r with fuel >= (D+1)*G never runs out of fuel (G = by-value nesting of groups / struct-valued Go fields, the only "
+    "recursion of extractStruct that does not go through a dereference lowering depthLimit). The traversal-budget / dereference-"
+    "count / allocation bounds for pogs.Extract are NOT proved (see note).")
+LEVEL_NOTE = LEVEL_NOTE + (
+    " UPDATE pogs.Extract - NOT proved: (d) 'successful dereferences <= T/8+1' and 'bytes handed out <= T' for extract_r (the model "
+    "threads the budget through the same readPtr as the walker and counts dereferences and slice cells in ghost fields x_nd / "
+    "x_cells, the run 'pogsread' of C01 compares the remaining budget with the code exactly, but no theorem bounds them); "
+    "(e) size of the produced Go value: by inspection of extract.go reflect.MakeSlice(n = List.Len()) happens AFTER readPtr charged "
+    "the list (max(element size, 8 if 0) x n >= n bytes), so the total number of slice cells is <= the budget consumed <= T, and "
+    "bytes allocated <= cells x sizeof(Go element type): a schema-dependent amplification (a 16-byte message holding a list of "
+    "T/8 zero-sized elements extracted into []S allocates T/8 x sizeof(S)). This is stated, not proved; C19's hostile run checks "
+    "alloc <= base + consumed x (largest mapped Go struct + 8 KiB) on the real code and has not reported an OVERALLOC.")
